@@ -120,7 +120,8 @@ int vs_nlocks(void) { return nlk; }
 uint8_t vs_edge(int a, int b) { return edges[a][b]; }
 const char *vs_edge_label(int a, int b) { return edge_label[a][b] ? edge_label[a][b] : ""; }
 void vs_set_label(const char *label) { if (self_id >= 0) th[self_id].label = label; }
-void vs_window(int on) { window = on; }
+int vs_unlock_points_req;
+void vs_window(int on) { window = on; if (vs_unlock_points_req) vs_unlock_points = on ? (vs_unlock_points | vs_unlock_points_req) : 0; }
 void vs_edges_reset(void) { memset(edges, 0, sizeof edges); memset(edge_label, 0, sizeof edge_label); }
 void vs_set_thread_label(int tid, const char *label) { if (tid >= 0 && tid < nth) th[tid].label = label; }
 int vs_threads_created(void) { return n_created; }
